@@ -42,8 +42,8 @@ LEVEL_TEXT["C16"] = ("Exploration: parseProtoAddr is driven with grammar-generat
 LEVEL_NOTE["C16"] = "Internal test file overlaid into package gnet (parseProtoAddr, createListeners, determineEventLoops, Client.opts). '?'/'#' inside unix paths and option values above 2^62 are outside the generated domain."
 LEVEL_TEXT["C15"] = ("Exploration: each balancer is driven over 1..256 bare loops with generated accept/close/open-elsewhere histories and address values and checked against the policy definition on every call "
                      "(RR: i mod N; LC: minimal count at call time; SAH: equal address strings give equal loops; always a registered loop). "
-                     "Engine-level sessions (C04/C05 fixtures) check that a connection's callbacks run on the loop it was assigned to.")
-LEVEL_NOTE["C15"] = "Policy half uses an internal test overlaid into package gnet with bare eventloop values; the accept path itself is exercised by the engine-level checks."
+                     "The engine half runs generated accept/close sequences against a real reactor-mode engine and judges the loop identity of every accepted connection by the same rules (cyclic for RR, minimal live count for LC, equal loops for equal remote address strings for SAH).")
+LEVEL_NOTE["C15"] = "Policy half uses an internal test overlaid into package gnet with bare eventloop values; the engine half observes loop identities through Conn.EventLoop() in reactor mode (tcp/unix; Unix-domain clients bound to re-used paths for Source-Addr-Hash) and checks that every callback of a connection runs on the goroutine of its assigned loop."
 LEVEL_TEXT["C17"] = ("Exploration: generated IP/port/zone/Unix addresses are converted to the kernel socket-address form and back (both directions checked: the kernel form itself and the round trip, zones by interface index and textual form); "
                      "invalid IP lengths, unsupported Unix networks and unknown address types must yield nil without panic. Engine-level sessions compare RemoteAddr/LocalAddr with the peers' own addresses under connection churn.")
 LEVEL_NOTE["C17"] = "Zone names that are neither an existing interface nor a decimal number have no kernel representation and are outside the domain; numeric zones below 0xFFFFFF."
